@@ -93,10 +93,12 @@ def pred(p):
     pn = p['pn']
     if pn == 'even':
         return lambda x: size(x) % 2 == 0
+    # (two of the predicates answer with truthy / falsy NON-bool values, as
+    #  user predicates like `len(ex['words'])` or `x % 2` do)
     if pn == 'odd':
-        return lambda x: size(x) % 2 == 1
+        return lambda x: size(x) % 2
     if pn == 'gt1':
-        return lambda x: size(x) > 1
+        return lambda x: [0] * max(size(x) - 1, 0)
     if pn == 'le1':
         return lambda x: size(x) <= 1
     if pn == 'always':
